@@ -1,7 +1,7 @@
 """C16 - parallel STL (narrow, structural clauses)."""
 import re
 
-from gsa.cfg import Fn, S, is_call, walk, lit, stores
+from gsa.cfg import Fn, S, SN, is_call, walk, lit, stores
 from gsa import lock as L
 from gsa import race
 from . import wl_locks
@@ -94,10 +94,17 @@ def partition(ctx, fx):
                 det.append("clean-up is %s" % S(e.get("e")))
                 continue
 
+            dfs = fn.defs()
+
             def bound(x, fn_name, own):
-                """x == fn_name(own, claim cursor) in either argument order"""
-                while isinstance(x, dict) and x.get("k") in ("ctor", "cast") and (x.get("a") or x.get("e")):
-                    x = x["a"][0] if x.get("k") == "ctor" else x["e"]
+                """x == fn_name(own, claim cursor) in either argument order (a const local holding it is looked through)"""
+                for _ in range(4):
+                    while isinstance(x, dict) and x.get("k") in ("ctor", "cast") and (x.get("a") or x.get("e")):
+                        x = x["a"][0] if x.get("k") == "ctor" else x["e"]
+                    if isinstance(x, dict) and x.get("k") == "ref" and x.get("n") in dfs and dfs[x["n"]] is not None:
+                        x = dfs[x["n"]]
+                    else:
+                        break
                 if not (isinstance(x, dict) and x.get("k") == "call" and x.get("name") == fn_name and len(x.get("a", [])) == 2):
                     return False
                 got = {S(y) for y in x["a"]}
@@ -121,11 +128,30 @@ def partition(ctx, fx):
         ctx.ob("C16.partition.serial-cleanup", P + "partition", not det, "; ".join(det), fn.loc(), "cleanup", fnkey=f["key"])
     for f in insts(fx, ST + "::update")[:2]:
         fn = ctx.fn(f)
-        asg = {(t, re.sub(r"\s", "", v or "")) for _, t, op, v in stores(fn) if op == "=" and t.startswith("this->r")}
-        want = {("this->rfirst", "min(this->rfirst,low.first)"), ("this->rlast", "max(this->rlast,low.second)"),
-                ("this->rfirst", "min(this->rfirst,high.first)"), ("this->rlast", "max(this->rlast,high.second)")}
-        got = {(a, b.replace("std::", "")) for a, b in asg}
-        ok = got == {(a, b.replace("std::", "")) for a, b in want}
+        # each leftover block widens the hull: rfirst = min(rfirst, X.first), rlast = max(rlast, X.second) for X in {low, high},
+        # arguments in either order
+        got = set()
+        asg = []
+        def store_events():
+            for _, e in fn.events():
+                if e.get("k") == "assign" and e.get("op") == "=":
+                    yield S(e.get("lhs")), e.get("rhs")
+                elif e.get("k") == "call" and e.get("op") == "=" and e.get("recv") is not None and e.get("a"):
+                    yield S(e["recv"]), e["a"][0]
+        for tgt, r in store_events():
+            if not tgt.startswith("this->r"):
+                continue
+            while isinstance(r, dict) and r.get("k") in ("cast", "ctor") and (r.get("e") or r.get("a")):
+                r = r["e"] if r.get("k") == "cast" else r["a"][0]
+            asg.append((tgt, S(r)))
+            if isinstance(r, dict) and r.get("k") == "call" and r.get("name") in ("min", "max") and len(r.get("a", [])) == 2:
+                got.add((tgt, r["name"], frozenset(S(x) for x in r["a"])))
+            else:
+                got.add((tgt, "?", frozenset([S(r)])))
+        lo, hi = f["params"][0]["n"], f["params"][1]["n"]
+        want = {("this->rfirst", "min", frozenset(["this->rfirst", lo + ".first"])), ("this->rlast", "max", frozenset(["this->rlast", lo + ".second"])),
+                ("this->rfirst", "min", frozenset(["this->rfirst", hi + ".first"])), ("this->rlast", "max", frozenset(["this->rlast", hi + ".second"]))}
+        ok = got == want
         ctx.ob("C16.partition.sentinel-consistent", ST + "::update", ok, "update assigns %s" % sorted(asg), fn.loc(), "update",
                fnkey=f["key"])
     for nm in ("takeLow", "takeHigh"):
@@ -133,21 +159,40 @@ def partition(ctx, fx):
             fn = ctx.fn(f)
             det = []
             d = {e["n"]: S(e.get("init")) for _, e in fn.events(lambda e: e.get("k") == "decl" and "init" in e)}
-            if d.get("BS") != "min(this->BlockSize(),distance(this->first,this->last))":
-                det.append("BS = %s" % d.get("BS"))
+            # the block size is the local that holds min(BlockSize(), distance(first, last)); the block start the local
+            # initialised from the cursor -- found by what they hold
+            want_bs = ("min(this->BlockSize(),distance(this->first,this->last))", "min(distance(this->first,this->last),this->BlockSize())")
+            bsn = [n for n, v in d.items() if v in want_bs]
+            cur = "this->first" if nm == "takeLow" else "this->last"
+            rvn = [n for n, v in d.items() if v == cur]
+            if len(bsn) != 1:
+                det.append("no local holds min(BlockSize(), distance(first, last)): %s" % d)
+            if len(rvn) != 1:
+                det.append("no local holds the block start %s" % cur)
+            BS = bsn[0] if bsn else "BS"
+            RV = rvn[0] if rvn else "rv"
             rets = {S(e.get("e")) for _, e in fn.events(lambda e: e["k"] == "ret")}
-            if rets != {"make_pair(rv,(rv + BS))"}:
+            if rets != {"make_pair(%s,(%s + %s))" % (RV, RV, BS)} and rets != {"make_pair(%s,(%s + %s))" % (RV, BS, RV)}:
                 det.append("returns %s" % sorted(rets))
+            def amount(e):
+                """the cursor moves by exactly the block size"""
+                if e.get("k") == "assign":
+                    return e.get("op") in ("+=", "-=") and e.get("rp") == BS
+                return len(e.get("a") or []) == 1 and S(e["a"][0]) == BS
             if nm == "takeLow":
-                adv = lambda e: (e.get("k") == "assign" and e.get("lp") == "this->first") or (e.get("k") == "call" and e.get("op") == "+=" and e.get("rp") == "this->first")
-                rv = lambda e: e.get("k") == "decl" and e.get("n") == "rv" and e.get("ip") == "this->first"
+                adv = lambda e: ((e.get("k") == "assign" and e.get("lp") == "this->first") or (e.get("k") == "call" and e.get("op") == "+=" and e.get("rp") == "this->first"))
+                rv = lambda e: e.get("k") == "decl" and e.get("n") == RV and e.get("ip") == "this->first"
                 if fn.reaches_without(adv, rv) or not any(True for _ in fn.events(adv)) or not any(True for _ in fn.events(rv)):
                     det.append("low block is not [first, first + BS) with first advanced afterwards")
+                if not all(amount(e) for _, e in fn.events(adv)):
+                    det.append("first is not advanced by the block size")
             else:
                 ret_ = lambda e: (e.get("k") == "assign" and e.get("lp") == "this->last") or (e.get("k") == "call" and e.get("op") == "-=" and e.get("rp") == "this->last")
-                rv = lambda e: e.get("k") == "decl" and e.get("n") == "rv" and e.get("ip") == "this->last"
+                rv = lambda e: e.get("k") == "decl" and e.get("n") == RV and e.get("ip") == "this->last"
                 if fn.reaches_without(rv, ret_) or not any(True for _ in fn.events(ret_)) or not any(True for _ in fn.events(rv)):
                     det.append("high block is not [last - BS, last) with last retreated first")
+                if not all(amount(e) for _, e in fn.events(ret_)):
+                    det.append("last is not retreated by the block size")
             ctx.ob("C16.partition.block-claiming", ST + "::" + nm, not det, "; ".join(det), fn.loc(), nm, fnkey=f["key"])
     for f in insts(fx, PH + "::operator()")[:2]:
         fn = ctx.fn(f)
@@ -306,16 +351,23 @@ def find_if(ctx, fx):
         last = f["params"][1]["n"]
         det = []
         loops = [b for b in fn.blocks.values() if (b.get("term") or {}).get("cls") in ("ForStmt", "WhileStmt")]
-        if len(loops) != 1 or S(lit(loops[0]["term"]["cond"])[0]) != "(i < accum.size())":
+        # the slot index and the per-thread store are named by the loop condition (i < accum.size()); locals bound to a slot
+        # (`auto& found = *accum.getRemote(i)`) are expanded
+        m = re.fullmatch(r"\((\w+) < (\w+)\.size\(\)\)", SN(lit(loops[0]["term"]["cond"])[0])) if len(loops) == 1 and loops[0]["term"].get("cond") else None
+        if not m:
             det.append("slots are not scanned over [0, accum.size())")
-        i0 = [e for _, e in fn.events(lambda e: e.get("k") == "decl" and e.get("n") == "i")]
+        iv, acc = (m.group(1), m.group(2)) if m else ("i", "accum")
+        al = dict(fn.defs()); al.update(fn.aliases())
+        al.pop(iv, None); al.pop(acc, None)
+        i0 = [e for _, e in fn.events(lambda e: e.get("k") == "decl" and e.get("n") == iv)]
         if not i0 or i0[0].get("ip") != "0":
             det.append("scan does not start at slot 0")
+        slot = "%s.getRemote(%s)" % (acc, iv)
         rl = lambda e: e.get("k") == "ret" and S(e.get("e")) == last
-        rf = lambda e: e.get("k") == "ret" and "accum.getRemote(i)" in S(e.get("e"))
+        rf = lambda e: e.get("k") == "ret" and slot in S(e.get("e"), al)
         if not any(True for _ in fn.events(rf)):
             det.append("a recorded position is never returned")
-        setl = lambda t: "accum.getRemote(i)" in S(t)
+        setl = lambda t: slot in S(t, al)
         if fn.guarded_positions(rf, setl, True):
             det.append("an unset slot is returned")
         # `last` only after the loop finished
